@@ -32,4 +32,14 @@ registry! {
     #[cfg(feature = "weak-ptrs")]
     h_fin::h_fin_weak_n3,
     h_fin::h_fin_twin,
+    #[cfg(feature = "weak-ptrs")]
+    h_weak::h_weak_prog_n2,
+    #[cfg(feature = "weak-ptrs")]
+    h_weak::h_weak_prog_n1,
+    #[cfg(feature = "weak-ptrs")]
+    h_weak::h_weak_cb_n2,
+    #[cfg(feature = "weak-ptrs")]
+    h_weak::h_weak_cb_ring3,
+    #[cfg(feature = "weak-ptrs")]
+    h_weak::h_weak_twin,
 }
